@@ -100,6 +100,8 @@ def materialise(case, d, exe):
     for ext in ('col', 'row'):
         if case.get(ext) is not None:
             open(stub + '.' + ext, 'w', encoding='latin-1', newline='').write(case[ext])
+    for name, content in (case.get('optfiles') or {}).items():
+        open(os.path.join(d, name), 'w', encoding='latin-1', newline='').write(content)
     op = case.get('outpath', 'ok')
     if op == 'isdir':
         os.makedirs(stub + '.sol')
@@ -111,7 +113,7 @@ def materialise(case, d, exe):
     env['ASAN_OPTIONS'] = ASAN
     env['UBSAN_OPTIONS'] = 'print_stacktrace=1'
     env['RECSOLVER_LOG'] = stub + '.reclog'
-    env.update(case.get('env', {}))
+    env.update({k: v.replace('@DIR@', d) for k, v in case.get('env', {}).items()})
     if case.get('script') is not None:
         open(stub + '.script', 'w').write(case['script'])
         env['RECSOLVER_SCRIPT'] = stub + '.script'
@@ -120,7 +122,7 @@ def materialise(case, d, exe):
         argv.append(stub + ('.nl' if case.get('stub_with_ext') else ''))
     if case.get('ampl'):
         argv.append('-AMPL')
-    argv += [t for t, _ in case.get('options', [])]
+    argv += [t.replace('@DIR@', d) for t, _ in case.get('options', [])]
     return stub, argv, env
 
 
@@ -132,7 +134,8 @@ def run_case(case, d, exe):
         rc, out, err = p.returncode, p.stdout.decode('latin-1'), p.stderr.decode('latin-1')
     except subprocess.TimeoutExpired:
         rc, out, err = 'timeout', '', ''
-    r = {'rc': rc, 'out': out, 'err': err, 'wall': time.time() - t0, 'sol': None, 'sol_special': None, 'log': ''}
+    r = {'rc': rc, 'out': out, 'err': err, 'wall': time.time() - t0, 'sol': None, 'sol_special': None, 'log': '',
+         'cmdline': ' '.join(argv), 'env': {k: v for k, v in env.items() if k.endswith('_options') or k.startswith('RECSOLVER_')}}
     sp = stub + '.sol'
     if os.path.islink(sp) or os.path.isdir(sp):
         r['sol_special'] = case.get('outpath')
@@ -367,6 +370,11 @@ def oracle(case, sc, o):
             dev.append(('crash:undefined-logical-constraint', 'crash (%s): the NL header declares logical constraints for which the file has no L segment; '
                         'the flattener visits the null expression' % d))
             return dev
+        if o['kind'] == 'hang' and not sc.get('hdr_inconsistent'):
+            st = ending[0] if isinstance(ending, tuple) else sc.get('progress', 'unknown')
+            dev.append(('hang:%s' % st, 'the driver did not terminate within %d s (stage by construction / last progress: %s); command line: %s'
+                        % (TIMEOUT, st, sc.get('cmdline', ''))))
+            return dev
         if (o['kind'] == 'hang' or d in ('rss-limit', 'signal9') or d.startswith('sanitizer:allocat') or d.startswith('sanitizer:out-of-memory')) \
                 and sc.get('hdr_inconsistent'):
             dev.append(('resource:inconsistent-header-counts', 'NL header with inconsistent counts makes the driver allocate without bound (%s)' % d))
@@ -425,7 +433,23 @@ def oracle(case, sc, o):
 
 # ------------------------------------------------------------------------------------------ scenario line
 def tok_str(t):
-    return t if isinstance(t, str) else 'w%d' % t[1]
+    if isinstance(t, str):
+        return t
+    if t[0] == 'F':                                   # option file: ('F', read_fails, [inner tokens])
+        return 'F%d:%s' % (t[1], ';'.join(tok_str(x) for x in t[2]))
+    return 'w%d' % t[1]
+
+
+def expand_toks(all_opts):
+    """the token sequence in the order ParseOptionString sees it (option files spliced in place,
+    a read failure raises after the readable tokens)"""
+    out = []
+    for _, t in all_opts:
+        if not isinstance(t, str) and t[0] == 'F':
+            out += list(t[2]) + (['b'] if t[1] else [])
+        else:
+            out.append(t)
+    return out
 
 
 def scenario_line(case, ending_fault, dims, ans, partial=(0, 0)):
@@ -462,7 +486,7 @@ def py_model_ending(case, fault):
         return 'info'
     if before(4):
         return fault
-    for _, t in case.get('all_opts', []):
+    for t in expand_toks(case.get('all_opts', [])):
         if t == 'b':
             return ('options', 'plain', None)
         if t == 'v':
@@ -560,6 +584,9 @@ class CaseGen:
                 nob = c.get('nobjs', 0)
                 opts.insert(pos, (r.choice(['objno=%d', 'obj:no=%d']) % (nob + r.rint(1, 3)), 'o'))
                 c['objno_big'] = True
+        # an option file somewhere in the list
+        if r.chance(1, 5):
+            opts.insert(r.rint(0, len(opts)), self.optfile(c))
         # some options come from the environment (parsed before argv)
         envopts = []
         if opts and r.chance(1, 4):
@@ -581,6 +608,52 @@ class CaseGen:
             if m and k == 'o':
                 last = int(m.group(2))
         c['objno_big'] = bool(last is not None and last > c.get('nobjs', 0))
+
+    def optfile(self, c, kind=None):
+        """one `tech:optionfile=<path>` item: (text, ('F', read_fails, [inner tokens])); the file goes to c['optfiles']"""
+        r = self.r
+        kind = kind or r.choice(['valid', 'valid', 'unknown', 'invalid', 'empty', 'nonl', 'comments', 'missing', 'dir', 'procmem'])
+        key = r.choice(['tech:optionfile', 'optionfile', 'option:file'])
+        if kind == 'missing':
+            return ('%s=@DIR@/no-such-file.opt' % key, ('F', 1, []))
+        if kind == 'dir':
+            return ('%s=@DIR@' % key, ('F', 1, []))
+        if kind == 'procmem':
+            return ('%s=/proc/self/mem' % key, ('F', 1, []))
+        safe = [t for t in c09gen.OPT_OK if not t.startswith(('obj:no', 'objno', 'cvt:names'))]
+        lines, toks = [], []
+        if kind != 'empty':
+            for _ in range(r.rint(0 if kind == 'comments' else 1, 4)):
+                k = r.below(8)
+                if kind == 'comments' or k == 0:
+                    lines.append(r.choice(['# a comment', '   # foo=1 (commented out)', '', '   ', '#wantsol=1']))
+                    continue
+                if k <= 4:
+                    t, tk = r.choice(safe), 'o'
+                elif k == 5:
+                    w = r.choice(c09gen.WANTSOL); t, tk = 'wantsol=%d' % w, ('w', w)
+                else:
+                    t2 = r.choice(safe); t, tk = r.choice(safe) + ' ' + t2, 'o'
+                    toks.append('o')
+                lines.append(r.choice(['', '  ', '\t']) + t)
+                toks.append(tk)
+            if kind == 'unknown':
+                i = r.rint(0, len(lines))
+                n_before = sum(1 for l in lines[:i] if l.strip() and not l.strip().startswith('#'))
+                # tokens before line i: count them (a line may carry two)
+                cnt = 0
+                for l in lines[:i]:
+                    if l.strip() and not l.strip().startswith('#'):
+                        cnt += len(l.split())
+                lines.insert(i, r.choice(c09gen.OPT_BAD[:6]))
+                toks.insert(cnt, 'b')
+            if kind == 'invalid':
+                lines.append(r.choice(c09gen.OPT_INVALID[:2]))
+                toks.append('v')
+        text = '\n'.join(lines) + ('\n' if lines and kind != 'nonl' else '')
+        name = 'opts%d.txt' % len(c.setdefault('optfiles', {}))
+        c['optfiles'][name] = text
+        return ('%s=@DIR@/%s' % (key, name), ('F', 0, toks))
 
     def add_outpath(self, c):
         r = self.r
@@ -850,6 +923,15 @@ def corpus_cases(cg):
     mk('nostub', stub=False, ampl=False, info=True)
     mk('stub.nl', stub_with_ext=True)
     mk('AMPL-late', ampl=False, options=[('cvt:bigM=10', 'o'), ('-AMPL', 'b')])
+    for kind in ['valid', 'unknown', 'invalid', 'empty', 'nonl', 'comments', 'missing', 'dir', 'procmem']:
+        for rep in range(3 if kind in ('valid', 'unknown') else 1):
+            c = mk('optfile:%s' % kind)
+            item = cg.optfile(c, kind)
+            c['options'] = [('cvt:bigM=7', 'o'), item, ('wantsol=1', ('w', 1))]
+            c['all_opts'] = c['options']
+        c = mk('optfile-standalone:%s' % kind, ampl=False)
+        c['options'] = [cg.optfile(c, kind)]
+        c['all_opts'] = c['options']
     for t in c09gen.OPT_OK:
         mk('opt-ok:' + t, options=[(t, 'o')])
     for t in c09gen.OPT_BAD:
@@ -910,7 +992,7 @@ def run(ck):
     ck.notes.append('PARTIAL: proof about the hand model of the outcome decision logic + sampled correspondence with the real driver; '
                     'termination / crash freedom of the C++ is observed only (ASan+UBSan, timeout) on the generated inputs')
     proof_ok, failing = ck.proof_stage('MpVerif.C09.Props', 'MpVerif/C09/Props.lean', 'C09_',
-                                        ['MpVerif/C09/*.lean'], expect_min=30)
+                                        ['MpVerif/C09/*.lean'], expect_min=33)
     ck.log('proof stage: ok=%s failing=%s' % (proof_ok, failing[:8]))
     if ck.tier == 'thorough' and proof_ok:
         bad = ck.leanchecker(['MpVerif.C09.Props'])
@@ -986,7 +1068,7 @@ def run(ck):
         distinct.add((fam, obs_s, str(ending), c.get('outpath'), bool(c.get('ampl'))))
         n_inferred += inferred
         replay = {'case': {k: v for k, v in c.items() if k not in ('id',)}, 'observed': obs_s, 'model': ml,
-                  'scenario_line': lines[idx], 'stdout': r['out'][-600:], 'stderr': r['err'][-1500:],
+                  'scenario_line': lines[idx], 'cmdline': r.get('cmdline'), 'env': r.get('env'), 'stdout': r['out'][-600:], 'stderr': r['err'][-1500:],
                   'sol': (r['sol'] or '')[:600], 'how': './check C09 --replay <this file>'}
         # (a) correspondence model vs implementation
         n_cmp += 1
@@ -995,6 +1077,8 @@ def run(ck):
         sc = {'ending': ending, 'dims': (hd[0], hd[1]) if hd else None, 'outpath': c.get('outpath', 'ok'),
               'answer': c.get('answer', (0, True, True)), 'hdr_inconsistent': c09gen.header_inconsistent(c['nl']) if c.get('nl') else False,
               'undefined_lcons': c09gen.undefined_logical_cons(c['nl']) if c.get('nl') else False,
+              'cmdline': r.get('cmdline', ''),
+              'progress': 'report' if '"ev":"solve"' in r['log'] else ('convert' if '"ev":"begin"' in r['log'] else 'read-or-options'),
               'names_first_empty': any((c.get(e) or 'x').startswith(('\n', '\r')) for e in ('col', 'row'))}
         devs = oracle(c, sc, o)
         latent = c.get('synthetic') and c.get('inject') and (
